@@ -1,3 +1,144 @@
+/-
+  Model driver of engine `daemon` (property C09): reads the same script as
+  harness/h_limits.c and prints the events the model predicts, one group of
+  lines per script line, each group terminated by `--`.
+-/
+import Mhd.Model.Limits
 import Driver.Common
-/- stub: replaced by the builder of this engine -/
-def main : IO Unit := Driver.runEngine () (fun s _ => (s, ["bad-op"]))
+open Mhd.Limits Driver
+
+structure DSt where
+  started : Bool := false
+  cfg : Cfg := { limit := 0, perIp := 0, threadSafe := true, epoll := false, tpc := false,
+                 allowSuspend := false, allowUpgrade := false }
+  s : St := St.init { limit := 0, perIp := 0, threadSafe := true, epoll := false, tpc := false,
+                      allowSuspend := false, allowUpgrade := false }
+  /-- addresses seen, for the `ipc` line -/
+  addrs : List Nat := []
+
+def siteName : Site → String
+  | .ipnode => "ipnode" | .conn => "conn" | .addr => "addr" | .pool => "pool"
+  | .epollCtl => "epollctl" | .thread => "thread"
+
+def b01 (b : Bool) : String := if b then "1" else "0"
+
+def showEv : Ev → String
+  | .arrive c ok => s!"arrive c={c} -> {b01 ok}"
+  | .policy c v => s!"policy c={c} -> {b01 v}"
+  | .connStart c => s!"conn-start c={c}"
+  | .connClose c => s!"conn-close c={c}"
+  | .fdClose c => s!"fd-close c={c}"
+  | .queued c r ok => s!"queued c={c} rid={r} -> {b01 ok}"
+  | .freeCb r => s!"free-cb rid={r}"
+  | .upgraded c => s!"upgrade c={c}"
+  | .suspended c => s!"suspend c={c}"
+  | .failed .epollCtl => "epoll-ctl-failed"
+  | .failed s => s!"alloc-failed site={siteName s}"
+  | .panic _ => "fault"
+
+def insertSorted (a : Nat) : List Nat → List Nat
+  | [] => [a]
+  | x :: xs => if a = x then x :: xs else if a < x then a :: x :: xs else x :: insertSorted a xs
+
+def reportLines (d : DSt) : List String :=
+  let s := d.s
+  let ipc := d.addrs.filterMap fun a => if s.ipCount a ≠ 0 then some s!" {a}={s.ipCount a}" else none
+  [s!"conns {s.connections}",
+   s!"lists new={s.newL.length} act={s.active.length} susp={s.susp.length} clean={s.cleanup.length}",
+   "ipc" ++ (if ipc.isEmpty then " -" else String.join ipc)]
+
+def faultLine (s : St) : List String := match s.fault with
+  | some f => [s!"fault {repr f}"]
+  | none => []
+
+/-- apply a model operation; `rep` = append the report lines -/
+def doOp (d : DSt) (o : Op) (rep : Bool) (pre : List String := []) (post : List String := []) : DSt × List String :=
+  if !d.started || d.s.fault.isSome || !o.legal d.s then (d, ["bad-op", "--"]) else
+  let (s', evs) := step d.s o
+  let d' := { d with s := s' }
+  (d', pre ++ evs.map showEv ++ post ++ faultLine s' ++ (if rep then reportLines d' else []) ++ ["--"])
+
+def kvNat (ws : List String) (key : String) : Option Nat :=
+  ws.findSome? fun w => if w.startsWith (key ++ "=") then (w.drop (key.length + 1)).toNat? else none
+
+def kvStr (ws : List String) (key : String) : Option String :=
+  ws.findSome? fun w => if w.startsWith (key ++ "=") then some (w.drop (key.length + 1)).toString else none
+
+def parseSite : String → Option Site
+  | "ipnode" => some .ipnode | "conn" => some .conn | "addr" => some .addr | "pool" => some .pool
+  | _ => none
+
+def stepLine (d : DSt) (ws : List String) : DSt × List String :=
+  match ws with
+  | "case" :: rest => ({}, [s!"case {rest.headD "-"}", "--"])
+  | "cfg" :: rest =>
+    let mode := (kvStr rest "mode").getD "select"
+    let cfg : Cfg := { limit := Cfg.effLimit ((kvNat rest "limit").getD 0), perIp := (kvNat rest "perip").getD 0,
+                       threadSafe := (kvNat rest "nts").getD 0 == 0, epoll := mode == "epoll" || mode == "epoll-thr",
+                       tpc := mode == "tpc",
+                       allowSuspend := (kvNat rest "suspend").getD 0 != 0 || (kvNat rest "upgrade").getD 0 != 0,
+                       allowUpgrade := (kvNat rest "upgrade").getD 0 != 0 }
+    ({ d with cfg := cfg }, ["ok", "--"])
+  | ["start"] => if d.started then (d, ["bad-op", "--"]) else
+      ({ d with started := true, s := { St.init d.cfg with resps := d.s.resps } }, ["started", "--"])
+  | "resp-create" :: r :: rest =>
+    match r.toNat? with
+    | some rid =>
+      let kind := (kvStr rest "kind").getD "freecb"
+      let size := (kvNat rest "size").getD 5
+      let o := Op.respCreate rid (size ≥ 400000) (kind != "upgrade") (kind == "upgrade")
+      if d.s.fault.isSome || !o.legal d.s || rid ≥ 16 then (d, ["bad-op", "--"]) else
+      ({ d with s := (step d.s o).1 }, [s!"resp-create rid={rid} -> 1", "--"])
+    | none => (d, ["bad-op", "--"])
+  | ["resp-drop", r] =>
+    match r.toNat? with
+    | some rid =>
+      let o := Op.respDrop rid
+      if d.s.fault.isSome || !o.legal d.s then (d, ["bad-op", "--"]) else
+      let (s', evs) := step d.s o
+      ({ d with s := s' }, evs.map showEv ++ [s!"resp-drop rid={rid}"] ++ faultLine s' ++ ["--"])
+    | none => (d, ["bad-op", "--"])
+  | ["arrive", c, a, p] =>
+    match c.toNat?, a.toNat?, p.toNat? with
+    | some ci, some ai, some pi =>
+      if ci ≠ d.s.nextId || ci ≥ 32 || ai ≥ 250 then (d, ["bad-op", "--"]) else
+      doOp { d with addrs := insertSorted ai d.addrs } (.arrive ai (pi != 0) true) true
+    | _, _, _ => (d, ["bad-op", "--"])
+  | ["req", c, kind, r] =>
+    match c.toNat?, r.toNat? with
+    | some ci, some ri =>
+      let b? : Option Beh := match kind with
+        | "reply" => some (.reply ri false) | "replyc" => some (.reply ri true)
+        | "upgrade" => some (.reply ri false) | "suspend" => some (.suspend ri) | _ => none
+      match b? with
+      | some b => doOp d (.req ci b) false (post := [s!"req c={ci} sent=1"])
+      | none => (d, ["bad-op", "--"])
+    | _, _ => (d, ["bad-op", "--"])
+  | ["cclose", c] => match c.toNat? with
+    | some ci => doOp d (.clientClose ci) false (post := ["ok"])
+    | none => (d, ["bad-op", "--"])
+  | ["hold", c] => match c.toNat? with
+    | some ci => doOp d (.hold ci) false (post := ["ok"])
+    | none => (d, ["bad-op", "--"])
+  | ["drain", c] => match c.toNat? with
+    | some ci => doOp d (.drain ci) false (post := ["ok"])
+    | none => (d, ["bad-op", "--"])
+  | ["resume", c] => match c.toNat? with
+    | some ci => doOp d (.resume ci) false (pre := [s!"resume c={ci}"])
+    | none => (d, ["bad-op", "--"])
+  | ["up-close", c] => match c.toNat? with
+    | some ci => doOp d (.upClose ci) false (post := [s!"up-close c={ci} -> 1"])
+    | none => (d, ["bad-op", "--"])
+  | ["settle"] => doOp d .round true
+  | ["query"] => doOp d .query true
+  | ["alloc-fail-site", x] => match parseSite x with
+    | some site => doOp d (.armFail site) false (post := ["ok"])
+    | none => (d, ["bad-op", "--"])
+  | ["epoll-fail"] => doOp d (.armFail .epollCtl) false (post := ["ok"])
+  | ["alloc-fail-off"] => doOp d .disarm false (post := ["ok"])
+  | ["mark", x] => (d, [s!"mark {x}", "--"])
+  | ["tick", _] => (d, ["ok", "--"])
+  | ["stop"] => doOp d .stop false (post := ["stopped"])
+  | _ => (d, ["bad-op", "--"])
+
+def main : IO Unit := runEngine ({} : DSt) stepLine
